@@ -88,7 +88,7 @@ CLAIMED.update({
         ref='5/C08'),
     'C16': dict(
         text='Scope-limited: the memory-safety, overflow, free and leak obligations of every function under contract (CBMC 6 default checks + '
-             '--memory-leak-check where the harness releases what the caller owns) are collected in one check; the evidence lists the functions covered '
+             '--memory-leak-check where the harness releases what the caller owns) are collected in one check, plus cif_loop_set_category under contract with a leak check over the SQLite model; the evidence lists the functions covered '
              'and, explicitly, what is not (all SQLite choreography, most of the parser, locale handling).',
         note='Trusted: CBMC memory model. Not a whole-library claim.', ref='5/C16'),
 })
@@ -110,15 +110,16 @@ CLAIMED.update({
         note='Bounded stand-in (one job per concrete length); trusted: CBMC, the reference decoder in the harness, models of value/ICU helpers.', ref='5/C01', category='other',
         technique='CBMC bounded equivalence check of the real decode_text against an executable specification (complete unwinding per length)'),
     'C06': dict(
-        text='Partial: cif_pktitr_close (COMMIT once, rollback on failure, all writes durable on success, iterator freed) and cif_pktitr_abort (ROLLBACK once, '
-             'never a COMMIT, nothing durable) are proved over a ghost model of SQLite transactions. The MISUSE / INVALID_HANDLE / remove contracts are written '
-             '(contracts/pktitr.h) but their jobs do not discharge within budget yet and are not registered. Packet enumeration is SQL and not decided.',
+        text='Partial: cif_pktitr_close (COMMIT once, rollback on failure, all writes durable on success, iterator freed), cif_pktitr_abort (ROLLBACK once, '
+             'never a COMMIT, nothing durable), cif_pktitr_remove_packet and cif_pktitr_update_packet (stale iterator => INVALID_HANDLE, no current packet => MISUSE without '
+             'touching the database, a removed packet is no longer current for every kind of loop, failure rolls back to the call\'s own savepoint) are proved over a ghost '
+             'model of SQLite transactions and savepoints. Packet enumeration is SQL and not decided.',
         note='Trusted: CBMC; the SQLite transaction model of stubs/sqlite_model.h (meaning of commit / rollback assumed).', ref='5/C06'),
 })
 
 CLAIMED.update({
     'C05': dict(
-        text='Partial: cif_container_create_loop_internal (names loop closed by an invariant), cif_pktitr_update_packet and cif_pktitr_remove_packet are proved, over a ghost '
+        text='Partial: cif_container_create_loop_internal (names loop closed by an invariant), cif_container_set_value (helpers by assumed contract), cif_pktitr_update_packet and cif_pktitr_remove_packet are proved, over a ghost '
              'model of SQLite transactions with a savepoint stack, to undo on every error return exactly the writes they stepped - nothing durable, the enclosing '
              'transaction still open with its writes and savepoints - and never to COMMIT / ROLLBACK an enclosing transaction. Table content (what each SQL statement '
              'does) is SQLite\'s and not decided; the other mutators are not under contract yet.',
